@@ -514,6 +514,59 @@ pub fn c06_part(run: &RunInfo) -> Acc {
             }
         }
     });
+    // the connection breaks on the writing side: write number w fails (0 = the file list, j = the
+    // data block answering request j, last = the acknowledgement of the completion)
+    let wacc = par_for(words.len(), |ix, acc| {
+        let w = &words[ix];
+        for wf in 0..=w.len() + 1 {
+            let mut incoming = ACK.to_vec();
+            for i in w {
+                incoming.extend(&req_bytes[*i]);
+            }
+            incoming.extend(&completion);
+            let sh: Sh = Rc::new(RefCell::new(Ctx::new(vec![], vec![], 0)));
+            let s = Scripted::new(sh, incoming.clone(), Chunking::Greedy);
+            s.st.borrow_mut().eof_at = Some(incoming.len());
+            s.st.borrow_mut().fail_write_call = Some(wf);
+            let log = run_writefile(&dir.path, 123456, block, &s, None);
+            let events = s.st.borrow().log.clone();
+            acc.count("executions", 1);
+            acc.count("fault_cases", 1);
+            acc.count("kind:write-failure", 1);
+            acc.count("transitions", (w.len() + 2) as u64);
+            acc.set("outcomes", h64(&("WriteFile", w, "write-failure", wf)));
+            let yielded = wf.saturating_sub(1);
+            let mut problems = vec![];
+            if let Some(p) = &log.panic {
+                problems.push(format!("the upload panicked: {p}"));
+            } else {
+                let ok_items = log.items.iter().take_while(|i| i.is_ok()).count();
+                if ok_items != yielded || log.items.len() != yielded + 1 || !log.ended || log.blocked || log.polls_after_end_not_none > 0 {
+                    problems.push(format!("expected {yielded} items, then exactly one error, then the end of the stream; got {:?} (ended={}, blocked={})", log.items.iter().map(|i| i.as_ref().map(|s| s.chars().take(30).collect::<String>()).map_err(|e| e.chars().take(60).collect::<String>())).collect::<Vec<_>>(), log.ended, log.blocked));
+                }
+                let refused = events.iter().filter(|e| matches!(e, Ev::Mark(m) if m.contains("refused"))).count();
+                if refused != 1 {
+                    problems.push(format!("{refused} writes were attempted on the broken connection (expected the failing one only)"));
+                }
+                let writes = events.iter().filter(|e| matches!(e, Ev::Write(_))).count();
+                if writes != wf.min(w.len() + 2) {
+                    problems.push(format!("{writes} writes succeeded, expected {wf}"));
+                }
+            }
+            if problems.is_empty() {
+                acc.count("ok:write-failure", 1);
+            } else {
+                let name: Vec<String> = w.iter().map(|i| reqs[*i].label()).collect();
+                acc.violation(viol(
+                    format!("c06/WriteFile/script={}/write-failure-at={wf}", name.join(",")),
+                    format!("firmware upload of one 17-byte file, block size {block}\nrequests: {}, then completion\nthe connection breaks on the writing side: write number {wf} fails (0 = the file list, j = the data block answering request j, {} = the acknowledgement of the completion)\n{}\nevent log:\n{}", name.join(", "), w.len() + 1, problems.join("\n"), render_events(&events)),
+                    w.len() as u64,
+                ));
+            }
+        }
+    });
+    let mut acc = acc;
+    acc.merge(wacc);
     let _ = std::fs::remove_dir_all(&root);
     acc
 }
